@@ -11,6 +11,7 @@ width, operations, wrapper nesting, control counts, exponents, qubit indices, de
 library equality and matrices at a seeded assignment are compared."""
 import io
 import json
+import math
 import os
 import random
 import signal
@@ -51,7 +52,9 @@ def gdef(name, alt=False):
     key = (name, alt)
     if key not in _DEFS:
         if name == "G0":
-            _DEFS[key] = CustomGateDefinition("G0", sympy.Matrix([[0, sympy.I], [1, 0]]) if alt else sympy.Matrix([[0, 1], [sympy.I, 0]]), ())
+            # float entries whose decimal text is not exact (0.7071067811865476 prints with 15 digits), and the constant I
+            r = 1 / math.sqrt(2)
+            _DEFS[key] = CustomGateDefinition("G0", sympy.Matrix([[r, sympy.I * r], [r, -sympy.I * r]]) if alt else sympy.Matrix([[r, r], [sympy.I * r, -sympy.I * r]]), ())
         else:
             a, b = sympy.Symbol("a"), sympy.Symbol("b")
             rz = sympy.Matrix([[sympy.exp(-sympy.I * a / 2), 0], [0, sympy.exp(sympy.I * a / 2)]])
@@ -224,6 +227,16 @@ def check_case(ctx, c):
                 continue
             if api:
                 continue
+            # load -> extend -> save: the circuit that came back is extended with gates built in code (for custom gates: from
+            # the in-code definition, equal to the loaded one up to the decimal text of its floats) and serialised again
+            try:
+                ext = back + orig
+                back2 = circuit_from_dict(json.loads(json.dumps(to_dict(ext))))
+                compare(desc + " [loaded, then extended by the same operations built in code, serialised again]", "JSON text", orig + orig, back2, out, matrices=False)
+            except Timeout:
+                raise
+            except Exception as ex:
+                out.append(("load-extend-save-raises", "%s: loaded from JSON, extended by the same operations built in code, serialised again: %s: %s" % (desc, type(ex).__name__, str(ex)[:200])))
             # files: by path, by open handle; circuit sets
             p = os.path.join(ctx.tmp, "c05-%d.json" % random.getrandbits(48))
             try:
@@ -277,6 +290,36 @@ def check_case(ctx, c):
     return uniq
 
 
+POISON = ["x", "theta[1]", "y[0]", "gamma[2]", "beta[0]", "a[1]", "b[0]", "I"]
+
+
+def check_process_history(ctx, h):
+    """deserialisations share one process: circuits whose symbol names collide with the names used by the cases (plain x
+    against x[3], theta[1] against theta, a symbol called I against the constant) are round-tripped FIRST, then the cases"""
+    import sympy
+    from orquestra.quantum.circuits import RX, Circuit, circuit_from_dict, to_dict
+
+    out = []
+    for name in POISON:
+        c0 = Circuit([RX(sympy.Symbol(name))(0)])
+        try:
+            b0 = circuit_from_dict(json.loads(json.dumps(to_dict(c0))))
+            if b0 != c0 or [str(s_) for s_ in b0.free_symbols] != [name]:
+                out.append(("history:poison", "Circuit([RX(%s)(0)]) came back as %s" % (name, b0)))
+        except Exception as ex:
+            out.append(("history:poison-raises", "round trip of Circuit([RX(%s)(0)]) raised %s: %s" % (name, type(ex).__name__, str(ex)[:150])))
+    for c in h["cases"]:
+        for k, m in check_case(ctx, c):
+            if k != "TIMEOUT":
+                out.append(("history:" + k, "after circuits with the symbols %s had been deserialised in the same process: %s" % (POISON, m)))
+    seen, uniq = set(), []
+    for k, m in out:
+        if k not in seen:
+            seen.add(k)
+            uniq.append((k, m))
+    return uniq
+
+
 def run(ctx):
     quick = ctx.tier == "quick"
     allb = "{1, 2, 3, 4, 5, 6, 7, 8, 9, 10, 11, 12}"
@@ -309,11 +352,26 @@ def run(ctx):
                 ctx.not_evaluated += 1
             else:
                 ctx.violation(key, msg, c)
+    # process histories: name-colliding circuits first, then a sample of the cases that mention symbols or custom gates
+    rng = random.Random(ctx.seed + 5)
+    interesting = [c for c in cases if c["defs"] or any("theta" in json.dumps(o) or "x[3]" in json.dumps(o) for o in c["ops"])]
+    rng.shuffle(interesting)
+    per = 6
+    hists = [{"k": "process-history", "cases": interesting[i : i + per]} for i in range(0, min(len(interesting), 96 if quick else 960), per)]
+    for h, fails in zip(hists, ctx.pmap(check_process_history, hists, chunksize=1)):
+        ctx.count({"k": "process-history", "first": POISON, "then": [[tree_str(o["g"]) for o in c["ops"]] for c in h["cases"]]}, kind="process history")
+        for key, msg in fails:
+            ctx.violation(key, msg, h)
     ctx.assumptions.append("symbol names: identifiers (also ones sympy knows as functions: gamma, beta) and name[index]; a plain symbol x together with x[3] is outside the domain (the textual format cannot tell them apart); custom gate names avoid built-in names and the wrapper markers")
     ctx.assumptions.append("matrix comparisons run under a per-case time limit; cases over the limit are counted as not evaluated")
 
 
 def replay(ctx, case):
+    if case.get("k") == "process-history":
+        ctx.count({"k": "process-history"})
+        for key, msg in check_process_history(ctx, case):
+            ctx.violation(key, msg, case)
+        return
     if case.get("k") == "tlc":
         raise TLCError("a TLC counterexample is replayed by re-running the check")
     ctx.count({"k": "circuit"})
